@@ -1,34 +1,42 @@
 """C13 — notes round-trip with ABI encoding; out-of-range indices are refused.
 
-Model: lean/ElfioVerif/Model/Note.lean (`Note.process` = the constructor's walker with fuel,
-`Note.get` = get_note with a checked `note_start_positions[index]` and checked buffer reads,
-`Note.add` = add_note), generic in the source (`NoteSrc` = get_data() + the size getter), so the same
-functions serve `note_section_accessor` (section::get_size) and `note_segment_accessor`
-(segment::get_file_size).  All guards / offsets / paddings are the generated expressions of
-Gen/SitesC13.lean (gen/sites.d/c13.json).  The model is the code after fixes 03 (index gate on the
-number of notes, F3) and 04 (64-bit `advance`, F12).
+Model: lean/ElfioVerif/Model/Note.lean — `Note.process` (the constructor's walker, fuel + sufficiency
+lemma), `Note.get` (get_note: index gate, checked `note_start_positions[index]` = Fault.vecOob, checked
+buffer reads incl. the caller's read of descSize bytes at the returned pointer), `Note.add` (add_note:
+encodeBuf + section::append_data(std::string) of Model/SecBuf).  Generic in the source `NoteSrc` =
+(get_data(), size getter), so the same functions model `note_section_accessor` (section::get_size) and
+`note_segment_accessor` (segment::get_file_size).  Every guard / offset / padding is the generated
+expression of Gen/SitesC13.lean (gen/sites.d/c13.json, 30 sites); fields go through rdField/wrField.
+The model is the code after fixes/03 (index gate on the number of notes, F3) and fixes/04 (64-bit
+`advance`, F12).  Spec: lean/ElfioVerif/Spec/Note.lean (`encodeNote(s)`, `noteStarts`, `decodeNote`),
+written from the gABI text.
 
-Proved (lean/ElfioVerif/Props/C13.lean, for ALL note sequences, ALL 32-bit indices, both byte orders):
-  note_bytes          any sequence of add_note on a reachable SHT_NOTE section leaves
-                      content ++ Spec.encodeNotes (namesz incl. terminator, descsz, type, 4-byte padding)
-  encodeBuf_spec      the buffer add_note builds = Spec.encodeNote
-  walker_positions    on a source holding Spec.encodeNotes the constructor returns exactly the note starts
-                      (hypothesis: size <= 2^32-3, the bound the remaining 32-bit `namesz + align - 1` needs)
-  note_roundtrip      get k on such a source returns type, name, descriptor of the k-th note
-                      (names of any length, descriptors of any length/residue)
-  get_note_absent     for EVERY 32-bit index >= count: returns false, no fault, any source
-  get_note_total      no fault for any index on ANY source with size <= allocation, size <= 2^32-3
-                      (content arbitrary, not only well-formed notes) — reused by C01
-  walk_fuel           the walker's fuel (size/12+1) never runs out, for every source with size < 2^63
-  process_total       the constructor never faults on such sources
-  secbuf_src_ok / segSrc_ok   reachable sections (SecBuf.Inv) and loaded segments are such sources
-  add_roundtrip       notes added through the accessor are returned by the same accessor (positions
-                      recorded by add_note, no re-walk)
-  advance_wrap_witness / note_index_witness   the two defects, on the unfixed expressions
-  namesz_round_wrap_witness                  why the size hypothesis is needed after fix 04
-Covered by correspondence + oracle only: save and reload (the loader/writer are abstracted in the
-driver: a reloaded section/segment holds exactly the saved bytes), the PT_NOTE segment path end to end,
-ELF32 vs ELF64 (the accessor does not depend on the class; only section::set_size truncation does).
+PROVED (lean/ElfioVerif/Props/C13.lean; all note sequences, all 32-bit indices, both byte orders):
+  encodeBuf_spec     the buffer add_note builds = Spec.encodeNote: namesz incl. terminator, descsz, type,
+                     name+NUL padded to 4, descriptor padded to 4 (null descriptor allowed when empty)
+  note_bytes         ANY sequence of add_note on a reachable SHT_NOTE section: no fault, section content =
+                     old content ++ Spec.encodeNotes, recorded positions = note starts (invariant AccOk)
+  add_roundtrip      a consistent accessor (e.g. after note_bytes) returns note k for every k < count, false
+                     for every index >= count, and get_notes_num = count — positions recorded by add_note
+  walker_positions   on a source whose bytes are Spec.encodeNotes the constructor succeeds and its positions
+                     are exactly the note starts
+  note_roundtrip     ... and get k returns type, name, descriptor of the k-th note (names 0..n bytes,
+                     descriptors of every length/residue; empty descriptor = null pointer, size 0)
+  get_note_absent    EVERY 32-bit index >= count: returns false, touches nothing — any source, any positions
+  get_note_total     ANY source content (not only well-formed notes) with size <= allocation: constructor
+                     succeeds and get_note with ANY 32-bit index returns without a fault (reused by C01)
+  walk_fuel, process_total   the walker's fuel size/12+1 never runs out, no read outside [0,size); every
+                     recorded position was checked (size < 2^63)
+  secbuf_src_ok, segSrc_ok, getData_inv, fresh_accOk   reachable sections (SecBuf.Inv of C07: fresh, eagerly /
+                     lazily loaded, edited) and loaded PT_NOTE segments are such sources
+  advance_wrap_witness, note_index_witness   F12 and F3 on the unfixed expressions (decide)
+  namesz_round_wrap_witness                   why the size hypothesis remains after fix 04
+HYPOTHESES: size <= 2^32-3 for walker_positions / note_roundtrip / get_note_total / note_bytes (after fix 04
+the 32-bit `namesz + align - 1` is the next wrap; witness above); note fields fit 32-bit words (Note.Fits).
+COVERED BY CORRESPONDENCE + ORACLE ONLY (not proved): "after save and reload" and "a note segment covering the
+section" end to end — the driver abstracts writer+loader as "the reloaded section and its PT_NOTE segment hold
+exactly the saved section bytes" (Driver/C13 attach, Note.segSrc); every reload case checks this against the
+real save()/load(), eager and lazy.  The ELF class enters only through section::set_size (C07's Bound).
 """
 import struct
 
@@ -36,8 +44,8 @@ PROPERTY = "C13"
 FAMILY = "c13"
 LEAN_MODULE = "ElfioVerif.Props.C13"
 THEOREMS = ["ElfioVerif.C13." + t for t in (
-    "encodeBuf_spec", "note_bytes", "walker_positions", "note_roundtrip", "add_roundtrip", "get_note_absent",
-    "get_note_total", "walk_fuel", "process_total", "secbuf_src_ok", "segSrc_ok",
+    "encodeBuf_spec", "note_bytes", "add_roundtrip", "walker_positions", "note_roundtrip", "get_note_absent",
+    "get_note_total", "walk_fuel", "process_total", "secbuf_src_ok", "segSrc_ok", "getData_inv", "fresh_accOk",
     "advance_wrap_witness", "note_index_witness", "namesz_round_wrap_witness")]
 SITES = ["note_", "sec32_append_str_len", "sec64_append_str_len", "sec32_insert", "sec64_insert"]
 RULE = ("sequences of 0-12 add_note (names 0-20 bytes incl. embedded NULs, descriptors 0-64 bytes, all residues "
@@ -174,8 +182,14 @@ def gen_raw(rng, i):
     e = ">" if msb else "<"
     data = b"".join(enc_note(msb, rand_type(rng), rand_name(rng), rand_desc(rng)) for _ in range(rng.randint(0, 5)))
     k = rng.random()
-    if k < 0.2:
+    if k < 0.12:
         pass
+    elif k < 0.2:
+        # header-only notes (namesz = descsz = 0: exactly 12 bytes), also as the very last note
+        parts = [enc_note(msb, rand_type(rng), rand_name(rng), rand_desc(rng)) for _ in range(rng.randint(0, 2))]
+        parts += [struct.pack(e + "III", 0, 0, rand_type(rng)) for _ in range(rng.randint(1, 3))]
+        if rng.random() < 0.5: rng.shuffle(parts)
+        data = b"".join(parts)
     elif k < 0.4 and data:
         data = data[:rng.randrange(len(data))]
     elif k < 0.75 and len(data) >= 12:
@@ -222,6 +236,13 @@ def gen_cases(rng, tier):
                          "get i=0", "get i=1", "get i=2", f"get i={sz - 1}", f"get i={sz}", f"get i={U32}",
                          "reload lazy=1", "get i=0", "gets i=0", "get i=1", "gets i=1", f"gets i={sz - 1}", f"gets i={sz}"]
                 yield {"id": f"x{k}", "lines": lines, "meta": {"exhaustive": True}}; k += 1
+    for cls, enc in ((32, "lsb"), (32, "msb"), (64, "lsb"), (64, "msb")):
+        hdr = struct.pack((">" if enc == "msb" else "<") + "III", 0, 0, 7)
+        one = enc_note(enc == "msb", 1, b"GNU", b"\1\2\3\4")
+        for data in (hdr, hdr + hdr, one + hdr, one, one[:-1], one + hdr[:-1], hdr + one):
+            lines = [f"loadsec cls={cls} enc={enc} lazy=0 seg=1 data={hx(data)}"] + \
+                    [f"{g} i={i}" for i in (0, 1, 2, 3, len(data) - 1, len(data)) for g in ("get", "gets")]
+            yield {"id": f"z{k}", "lines": lines, "meta": {"exhaustive": True}}; k += 1
     if tier != "quick":
         for enc in ("lsb", "msb"):
             for a in range(5):
